@@ -55,3 +55,33 @@ Arguments hstep {V}. Arguments hrun {V}. Arguments hmarshal {V}. Arguments is_pu
     caller's values are permuted into bit order, its keys keep their order. *)
 Definition marshal_in_place_state {V} (m : list (bits * V)) : list (bits * V) :=
   combine (map fst m) (map snd (bsort m)).
+
+(** ** decoding INTO an object (Hashmap.UnmarshalTLB / HashmapE.UnmarshalTLB on a
+    variable or struct field that may have been used before): the new state is
+    what the cell decodes to and nothing else — the old state [m] is not an
+    input.  (Hashmap.UnmarshalTLB empties the receiver before the walk that
+    appends; HashmapE.UnmarshalTLB assigns the freshly decoded Maybe ^Hashmap
+    unconditionally.)  After a failed decode the object is unspecified here:
+    histories stop at the first decode error. *)
+Definition hdecode {V} (vdec : bits -> list cell -> option V) (e : bool) (n : nat)
+  (m : list (bits * V)) (c : cell) : list (bits * V) * bool :=
+  match (if e then decode_e vdec n c else decode vdec n c) with
+  | Ok l => (l, true)
+  | _ => ([], false)
+  end.
+
+(** for Proofs/HashmapHistory.v: the two designs that keep old entries *)
+(* seeded change C05-r3m2: HashmapE.UnmarshalTLB assigns only when the Maybe bit is set *)
+Definition hdecode_conditional {V} (vdec : bits -> list cell -> option V) (n : nat)
+  (m : list (bits * V)) (c : cell) : list (bits * V) * bool :=
+  match c with
+  | Cell (false :: _) _ => (m, true)
+  | _ => hdecode vdec true n m c
+  end.
+(* the code before "fix: reset a Hashmap before decoding into it": mapInner appends *)
+Definition hdecode_appending {V} (vdec : bits -> list cell -> option V) (n : nat)
+  (m : list (bits * V)) (c : cell) : list (bits * V) * bool :=
+  match decode vdec n c with
+  | Ok l => (m ++ l, true)
+  | _ => ([], false)
+  end.
